@@ -500,6 +500,40 @@ func literalFieldValues(v ssa.Value) map[string]ssa.Value {
 
 func (ck *Check) literalFields(ctx *Ctx, v ssa.Value) map[string]*Term {
 	out := map[string]*Term{}
+	// the SDK's generated setter chain new(T).SetA(x).SetB(y): each `func (s *T) SetF(v V) *T` is
+	// `s.F = &v; return s` (slices and pointers are stored as given) — read as F ← aws.<Kind>(v)
+	for {
+		c, ok := v.(*ssa.Call)
+		if !ok {
+			break
+		}
+		f := c.Common().StaticCallee()
+		if f == nil || f.Signature.Recv() == nil || len(c.Common().Args) != 2 || !strings.HasPrefix(f.Name(), "Set") ||
+			!strings.HasPrefix(pkgPathOfFn(f), "github.com/aws/aws-sdk-go/service/") || f.Signature.Results().Len() != 1 ||
+			!types.Identical(f.Signature.Results().At(0).Type(), f.Signature.Recv().Type()) {
+			break
+		}
+		name := strings.TrimPrefix(f.Name(), "Set")
+		if st := derefStruct(f.Signature.Recv().Type()); st != nil {
+			for i := 0; i < st.NumFields(); i++ {
+				if st.Field(i).Name() != name {
+					continue
+				}
+				if _, done := out[name]; done {
+					break
+				}
+				at := ctx.Term(c.Common().Args[1])
+				if b, ok := c.Common().Args[1].Type().Underlying().(*types.Basic); ok {
+					kind := map[types.BasicKind]string{types.String: "String", types.Int64: "Int64", types.Bool: "Bool", types.Float64: "Float64", types.Int: "Int"}[b.Kind()]
+					if kind != "" {
+						at = &Term{Kind: "call", Name: "aws." + kind, Args: []*Term{at}}
+					}
+				}
+				out[name] = at
+			}
+		}
+		v = c.Common().Args[0]
+	}
 	al, ok := v.(*ssa.Alloc)
 	if !ok {
 		return out
@@ -512,7 +546,9 @@ func (ck *Check) literalFields(ctx *Ctx, v ssa.Value) map[string]*Term {
 		f := fieldOfAddr(fa)
 		for _, rr := range *fa.Referrers() {
 			if st, ok := rr.(*ssa.Store); ok && st.Addr == ssa.Value(fa) {
-				out[f.Name()] = ctx.Term(st.Val)
+				if _, set := out[f.Name()]; !set {
+					out[f.Name()] = ctx.Term(st.Val)
+				}
 			}
 		}
 	}
@@ -525,7 +561,7 @@ func (ck *Check) literalFields(ctx *Ctx, v ssa.Value) map[string]*Term {
 func init() {
 	register(&propSpec{ID: "C17", Run: checkC17,
 		Explanation: "In (*aws.NodeGroup).IncreaseSize every call that can reach an AWS write is behind δ ≥ 1 ∧ TargetSize + δ ≤ MaxSize (so a rejected request performs no write and desired capacity is never lowered); the set-capacity strategy sends exactly one SetDesiredCapacity with DesiredCapacity = TargetSize + δ for the group's own name; the fleet request has TotalTargetCapacity = MinTargetCapacity = δ on the option block selected by the lifecycle, Type instant; the slice handed to the attach step contains every acquired instance id; the attach calls are a head/tail chunking of that slice with chunk size ≤ 20 (each id in exactly one call).",
-		RuleText:    "R1 bounds first, R2 absolute set, R3 fleet request fields, R4 acquired set, R5 attach chunking",
+		RuleText:    "R1 bounds first, R2 absolute set, R3 fleet request fields, R4 acquired set, R5 attach chunking, R6 fresh cached target (typestate of C07.R5)",
 		Assumptions: []string{"that AWS honours MinTargetCapacity (all-or-nothing) and readiness polling are not decided"}})
 	register(&propSpec{ID: "C18", Run: checkC18,
 		Explanation: "In the attach step every return of a non-nil error is immediately preceded by a call of the injected terminate function whose argument is, by the chunking invariant, exactly the complement of the chunks already attached (whole input on timeout; rest ∪ failed batch inside the loop; the remainder on the final call); the success return calls no terminate; between a successful CreateFleet and the attach step nothing is dropped; the production caller injects terminateOrphanedInstances, which issues TerminateInstances per batch of ≤ 1000 ids built from the current batch only; the error is returned unchanged up to ScaleUp, which arms the lock only on err == nil.",
@@ -533,7 +569,7 @@ func init() {
 		Assumptions: []string{"failure of the terminate call itself is only logged (statement: \"submitted for termination\")"}})
 	register(&propSpec{ID: "C19", Run: checkC19,
 		Explanation: "In (*aws.NodeGroup).DeleteNodes the terminate call is behind TargetSize > MinSize ∧ TargetSize − len(nodes) ≥ MinSize and the membership test of that very node, is issued at most once per listed node, with ShouldDecrementDesiredCapacity = true and the InstanceId of the ASG instance whose provider id equals the node's; Belongs and the lookup use the same provider-id mapping; a non-member returns *NodeNotInNodeGroup; the delete step deletes from Kubernetes only after the cloud call returned nil; and that error type is propagated unchanged by every frame up to RunForever, whose result main passes to log.Fatal.",
-		RuleText:    "R1 minimum pre-checks, R2 membership, R3 right instance with decrement, R4 same key on both sides, R5 cloud first, R6 type-preserving propagation per frame",
+		RuleText:    "R1 minimum pre-checks, R2 membership, R3 right instance with decrement, R4 same key on both sides, R5 cloud first, R6 type-preserving propagation per frame, R7 a refused terminate call stops the request and is reported",
 		Assumptions: []string{"freshness of the cached TargetSize is C07.R5"}})
 }
 
@@ -543,6 +579,9 @@ func checkC17(ck *Check) {
 	ck.fleetRequest("C17.R3")
 	ck.acquiredSet("C17.R4")
 	ck.attachChunking("C17.R5")
+	// R6 "exactly the delta" is relative to the cached desired capacity: it must not be stale when
+	// IncreaseSize reads it (decided as C07.R5)
+	ck.cacheTypestate("C17.R6")
 }
 
 func isAwsHelper(t *Term, name string) bool {
@@ -941,10 +980,100 @@ func checkC18(ck *Check) {
 		ck.fail("C18.R1", funcID(fn)+"/terminate-param", "", funcID(fn), "the attach step takes the terminate function as a parameter", "none", "")
 		return
 	}
+	// spillOf: v is the parameter prm, or a load of the cell the compiler moved it to (a captured
+	// parameter lives in a cell written once, on entry)
+	spillCell := func(al *ssa.Alloc, prm *ssa.Parameter) bool {
+		n := 0
+		okv := false
+		for _, r := range *al.Referrers() {
+			if st, ok := r.(*ssa.Store); ok && st.Addr == ssa.Value(al) {
+				n++
+				okv = st.Val == ssa.Value(prm)
+			}
+		}
+		return n == 1 && okv
+	}
+	isTermValue := func(v ssa.Value) bool {
+		if v == ssa.Value(termParam) {
+			return true
+		}
+		if u, ok := v.(*ssa.UnOp); ok && u.Op == token.MUL {
+			if al, ok := u.X.(*ssa.Alloc); ok {
+				return spillCell(al, termParam)
+			}
+		}
+		return false
+	}
+	// termArgs: the ids handed to terminate by a call instruction of fn — directly, or through a
+	// local closure / helper that calls terminate unconditionally with one of its own parameters
+	termArgs := map[*ssa.Call]ssa.Value{}
 	isTermCall := func(in ssa.Instruction) *ssa.Call {
 		c, ok := in.(*ssa.Call)
-		if ok && c.Common().Value == ssa.Value(termParam) {
+		if !ok {
+			return nil
+		}
+		if _, done := termArgs[c]; done {
 			return c
+		}
+		if isTermValue(c.Common().Value) && len(c.Common().Args) == 2 {
+			termArgs[c] = c.Common().Args[1]
+			return c
+		}
+		h := c.Common().StaticCallee()
+		if h == nil || !ck.P.inRepo(h) || h.Blocks == nil || h == fn {
+			return nil
+		}
+		mc, _ := c.Common().Value.(*ssa.MakeClosure)
+		for _, hb := range h.Blocks {
+			for _, hin := range hb.Instrs {
+				c2, ok := hin.(*ssa.Call)
+				if !ok || len(c2.Common().Args) != 2 {
+					continue
+				}
+				isTerm := false
+				switch v := c2.Common().Value.(type) {
+				case *ssa.Parameter:
+					for j, hp := range h.Params {
+						if hp == v && j < len(c.Common().Args) && isTermValue(c.Common().Args[j]) {
+							isTerm = true
+						}
+					}
+				case *ssa.UnOp:
+					if fv, ok := v.X.(*ssa.FreeVar); ok && mc != nil {
+						for j, hf := range h.FreeVars {
+							if hf == fv && j < len(mc.Bindings) {
+								if al, ok := mc.Bindings[j].(*ssa.Alloc); ok && spillCell(al, termParam) {
+									isTerm = true
+								}
+							}
+						}
+					}
+				case *ssa.FreeVar:
+					if mc != nil {
+						for j, hf := range h.FreeVars {
+							if hf == v && j < len(mc.Bindings) && isTermValue(mc.Bindings[j]) {
+								isTerm = true
+							}
+						}
+					}
+				}
+				if !isTerm {
+					continue
+				}
+				// unconditional in the helper, and the ids are one of the helper's parameters
+				for _, rb := range h.Blocks {
+					if _, isRet := rb.Instrs[len(rb.Instrs)-1].(*ssa.Return); isRet && !hb.Dominates(rb) {
+						return nil
+					}
+				}
+				for k, hp := range h.Params {
+					if ssa.Value(hp) == c2.Common().Args[1] && k < len(c.Common().Args) {
+						termArgs[c] = c.Common().Args[k]
+						return c
+					}
+				}
+				return nil
+			}
 		}
 		return nil
 	}
@@ -995,7 +1124,7 @@ func checkC18(ck *Check) {
 			ck.fail("C18.R1", key, ck.P.instrPos(r), funcID(fn), "every error exit of the attach step first calls terminate", "no terminate call before this return", "acquired instances are neither attached nor terminated when this step fails")
 			continue
 		}
-		arg := tc.Common().Args[1]
+		arg := termArgs[tc]
 		at := ctx.Term(arg)
 		// which attach call failed on this path?
 		var failed *ssa.Call
@@ -1194,10 +1323,24 @@ func (ck *Check) terminateChunking(rule string) {
 		ck.fail(rule, key+"/loop", ck.P.instrPos(call), funcID(fn), "TerminateInstances sits in an index-stepping loop over the id list", "no loop", "more than 1000 ids can be sent in one call")
 		return
 	}
+	var batch *ssa.Slice
+	okBatch := false
+	// idiom C, peeling: for rem := ids; len(rem) > 0; { k := min(K, len(rem)); batch := rem[:k]; rem = rem[k:] }
+	peeled := false
+	if pl := peelLoopOf(ck, outer); pl != nil {
+		if _, isParam := pl.Init.(*ssa.Parameter); isParam {
+			peeled = true
+			batch, okBatch = pl.Batch, true
+			ck.cond(pl.K >= 1 && pl.K <= 1000, rule, key+"/chunk-size", ck.P.instrPos(pl.Rem), funcID(fn), "step k ≤ 1000 (TerminateInstances limit)", fmt.Sprint(pl.K), "")
+		}
+	}
 	// induction: i = phi(0, i+k); header: i < N
 	var iv *ssa.Phi
 	var step int64
 	for _, in := range outer.Header.Instrs {
+		if peeled {
+			break
+		}
 		ph, ok := in.(*ssa.Phi)
 		if !ok || !isInteger(ph.Type()) {
 			continue
@@ -1226,14 +1369,18 @@ func (ck *Check) terminateChunking(rule string) {
 			iv = ph
 		}
 	}
-	if iv == nil {
+	if iv == nil && !peeled {
 		ck.fail(rule, key+"/induction", ck.P.instrPos(call), funcID(fn), "loop variable i = 0, k, 2k, … with constant k", "not recognised", "")
 		return
 	}
-	ck.cond(step <= 1000, rule, key+"/chunk-size", ck.P.instrPos(iv), funcID(fn), "step k ≤ 1000 (TerminateInstances limit)", fmt.Sprint(step), "")
+	if !peeled {
+		ck.cond(step <= 1000, rule, key+"/chunk-size", ck.P.instrPos(iv), funcID(fn), "step k ≤ 1000 (TerminateInstances limit)", fmt.Sprint(step), "")
+	}
 	// batch = instances[i : min(i+k, N)]
-	var batch *ssa.Slice
 	for b := range outer.Blocks {
+		if peeled {
+			break
+		}
 		for _, in := range b.Instrs {
 			if sl, ok := in.(*ssa.Slice); ok && sl.Low == ssa.Value(iv) {
 				if _, isParam := sl.X.(*ssa.Parameter); isParam {
@@ -1242,8 +1389,7 @@ func (ck *Check) terminateChunking(rule string) {
 			}
 		}
 	}
-	okBatch := false
-	if batch != nil && batch.High != nil {
+	if !peeled && batch != nil && batch.High != nil {
 		ht := ctx.Term(batch.High)
 		// min(i+k, N) through a repo helper or the builtin
 		if ht.Kind == "call" && len(ht.Args) == 2 {
@@ -1594,6 +1740,9 @@ func checkC19(ck *Check) {
 	}
 	// R1 (continued): the pre-checks read a desired capacity that is fresh within the scan
 	ck.cacheTypestate("C19.R1")
+	// R7 a refused termination stops the request and is reported: DeleteNodes' nil result is what
+	// the delete step (R5) takes as "the cloud accepted the whole batch"
+	ck.failStops("C19.R7", key+"/failure-stops", fn, call, "W-ASG-TERM", "a terminate call the cloud refused")
 	// R6 propagation
 	ck.notInGroupPropagation("C19.R6")
 	ck.fatalErrorCreation("C19.R6")
@@ -2222,4 +2371,266 @@ func closureResult(ctx *Ctx, mc *ssa.MakeClosure, args []*Term) *Formula {
 		ch.bind[fv] = ctx.Term(b)
 	}
 	return ch.returnFormula(0)
+}
+
+// peelLoop: `for rem := S; len(rem) > 0; { k := min(K, len(rem)); batch := rem[:k]; rem = rem[k:] … }`
+// — every trip takes a non-empty prefix of at most K elements off the remaining slice; the
+// batches partition S in order.
+type peelLoop struct {
+	Rem   *ssa.Phi
+	Init  ssa.Value
+	Batch *ssa.Slice
+	K     int64
+}
+
+func peelLoopOf(ck *Check, l *Loop) *peelLoop {
+	h := l.Header
+	for _, in := range h.Instrs {
+		ph, ok := in.(*ssa.Phi)
+		if !ok {
+			continue
+		}
+		if _, isSlice := ph.Type().Underlying().(*types.Slice); !isSlice {
+			continue
+		}
+		pl := &peelLoop{Rem: ph}
+		var rest *ssa.Slice
+		good := true
+		for i, e := range ph.Edges {
+			if !l.Blocks[h.Preds[i]] {
+				if pl.Init != nil && pl.Init != e {
+					good = false
+				}
+				pl.Init = e
+				continue
+			}
+			sl, ok := e.(*ssa.Slice)
+			if !ok || sl.X != ssa.Value(ph) || sl.Low == nil || sl.High != nil || sl.Max != nil || (rest != nil && rest != sl) {
+				good = false
+				continue
+			}
+			rest = sl
+		}
+		if !good || rest == nil || pl.Init == nil {
+			continue
+		}
+		// the split point: min(K, len(rem)) through the builtin or a repo minimum helper
+		split := rest.Low
+		sc, ok := split.(*ssa.Call)
+		if !ok || len(sc.Common().Args) != 2 {
+			continue
+		}
+		isMin := false
+		if b, ok := sc.Common().Value.(*ssa.Builtin); ok && b.Name() == "min" {
+			isMin = true
+		} else if f := sc.Common().StaticCallee(); f != nil && ck.isMinHelper(f) {
+			isMin = true
+		}
+		if !isMin {
+			continue
+		}
+		okArgs := false
+		for i := 0; i < 2; i++ {
+			k, isK := sc.Common().Args[i].(*ssa.Const)
+			lc, isLen := isBuiltinCall(sc.Common().Args[1-i], "len")
+			if isK && k.Value != nil && isLen && lc.Common().Args[0] == ssa.Value(ph) {
+				pl.K = k.Int64()
+				okArgs = true
+			}
+		}
+		if !okArgs || pl.K < 1 {
+			continue
+		}
+		// the loop goes on exactly while len(rem) > 0, tested in the header
+		br, ok := h.Instrs[len(h.Instrs)-1].(*ssa.If)
+		if !ok {
+			continue
+		}
+		bo, ok := br.Cond.(*ssa.BinOp)
+		if !ok {
+			continue
+		}
+		lc, isLen := isBuiltinCall(bo.X, "len")
+		k0, isK0 := bo.Y.(*ssa.Const)
+		stays := l.Blocks[h.Succs[0]] && !l.Blocks[h.Succs[1]]
+		if !(isLen && lc.Common().Args[0] == ssa.Value(ph) && isK0 && k0.Int64() == 0 && stays && (bo.Op == token.GTR || bo.Op == token.NEQ)) {
+			continue
+		}
+		// batch = rem[:split], in the loop, before anything leaves it
+		for b := range l.Blocks {
+			for _, in2 := range b.Instrs {
+				if sl, ok := in2.(*ssa.Slice); ok && sl.X == ssa.Value(ph) && sl.Low == nil && sl.High == split && sl.Max == nil {
+					pl.Batch = sl
+				}
+			}
+		}
+		if pl.Batch == nil {
+			continue
+		}
+		// every trip peels: the rest-slice is computed in a block that dominates all latches
+		for _, p := range h.Preds {
+			if l.Blocks[p] && !rest.Block().Dominates(p) {
+				good = false
+			}
+		}
+		if good {
+			return pl
+		}
+	}
+	return nil
+}
+
+// failStops: the write at call can fail; when it does, fn gives up and says so. On the CFG: the
+// call's error is tested before anything else happens, and from the failure edge of that test
+// every path reaches a return of a non-nil error — without another write of the class and
+// without going round to the call again (the next element of a batch).
+func (ck *Check) failStops(rule, key string, fn *ssa.Function, call *ssa.Call, class, what string) {
+	required := "when " + what + " fails, " + fn.Name() + " issues no further call of the kind and returns a non-nil error"
+	var errV ssa.Value
+	if tup, ok := call.Type().(*types.Tuple); ok {
+		for _, r := range *call.Referrers() {
+			if ex, ok := r.(*ssa.Extract); ok && ex.Index == tup.Len()-1 && isErrorType(ex.Type()) {
+				errV = ex
+			}
+		}
+	} else if isErrorType(call.Type()) {
+		errV = call
+	}
+	if errV == nil {
+		ck.fail(rule, key, ck.P.instrPos(call), funcID(fn), required, "the error result is discarded", "a refused request is taken for an accepted one")
+		return
+	}
+	// tests of the error
+	type test struct {
+		blk  *ssa.BasicBlock
+		fail *ssa.BasicBlock
+	}
+	var tests []test
+	isTest := map[*ssa.BasicBlock]bool{}
+	for _, b := range fn.Blocks {
+		br, ok := b.Instrs[len(b.Instrs)-1].(*ssa.If)
+		if !ok {
+			continue
+		}
+		bo, ok := br.Cond.(*ssa.BinOp)
+		if !ok || (bo.Op != token.NEQ && bo.Op != token.EQL) {
+			continue
+		}
+		var other ssa.Value
+		switch {
+		case bo.X == errV:
+			other = bo.Y
+		case bo.Y == errV:
+			other = bo.X
+		default:
+			continue
+		}
+		if k, ok := other.(*ssa.Const); !ok || !k.IsNil() {
+			continue
+		}
+		ft := b.Succs[0]
+		if bo.Op == token.EQL {
+			ft = b.Succs[1]
+		}
+		tests = append(tests, test{b, ft})
+		isTest[b] = true
+	}
+	if len(tests) == 0 {
+		ck.fail(rule, key, ck.P.instrPos(call), funcID(fn), required, "the error is never compared with nil", "a refused request is taken for an accepted one")
+		return
+	}
+	isWrite := func(in ssa.Instruction) bool {
+		if in == ssa.Instruction(call) {
+			return true
+		}
+		for _, w := range ck.A.W {
+			if w.Class == class && w.Call == in {
+				return true
+			}
+		}
+		if ci, ok := in.(ssa.CallInstruction); ok && ci.Common().StaticCallee() != nil && ci.Common().StaticCallee() == call.Common().StaticCallee() && ck.P.inRepo(call.Common().StaticCallee()) {
+			return true // another call of the same wrapper
+		}
+		return false
+	}
+	var why []string
+	// (a) nothing between the call and the test of its error: walking on from the call without
+	// crossing a test reaches neither an exit nor another write
+	{
+		seen := map[*ssa.BasicBlock]bool{}
+		var walk func(b *ssa.BasicBlock, from int)
+		walk = func(b *ssa.BasicBlock, from int) {
+			for _, in := range b.Instrs[from:] {
+				if isWrite(in) && in != ssa.Instruction(call) {
+					why = append(why, "another call is issued before the error is tested ("+ck.P.instrPos(in)+")")
+					return
+				}
+				if in == ssa.Instruction(call) && from == 0 {
+					why = append(why, "the call is repeated before its error is tested")
+					return
+				}
+				if _, ok := in.(*ssa.Return); ok {
+					why = append(why, "a return is reached before the error is tested ("+ck.P.instrPos(in)+")")
+					return
+				}
+			}
+			if isTest[b] {
+				return
+			}
+			for _, s := range b.Succs {
+				if !seen[s] {
+					seen[s] = true
+					walk(s, 0)
+				}
+			}
+		}
+		idx := 0
+		for i, in := range call.Block().Instrs {
+			if in == ssa.Instruction(call) {
+				idx = i + 1
+			}
+		}
+		walk(call.Block(), idx)
+	}
+	// (b) from the failure edge
+	for _, t := range tests {
+		seen := map[*ssa.BasicBlock]bool{}
+		var walk func(b *ssa.BasicBlock)
+		walk = func(b *ssa.BasicBlock) {
+			if seen[b] {
+				return
+			}
+			seen[b] = true
+			for _, in := range b.Instrs {
+				if isWrite(in) {
+					why = append(why, "after the failure the loop goes on to the next call ("+ck.P.instrPos(in)+")")
+					return
+				}
+				if r, ok := in.(*ssa.Return); ok {
+					rv := r.Results[len(r.Results)-1]
+					if !(rv == errV || errorConstructor(rv)) {
+						why = append(why, "after the failure "+fn.Name()+" returns "+rv.String()+" ("+ck.P.instrPos(r)+")")
+					}
+					return
+				}
+			}
+			for _, s := range b.Succs {
+				walk(s)
+			}
+		}
+		walk(t.fail)
+	}
+	sort.Strings(why)
+	why = dedupStrings(why)
+	ck.cond(len(why) == 0, rule, key, ck.P.instrPos(call), funcID(fn), required, fmt.Sprintf("%d test(s) of the error", len(tests)), strings.Join(why, "; "))
+}
+
+func dedupStrings(in []string) []string {
+	var out []string
+	for i, s := range in {
+		if i == 0 || s != in[i-1] {
+			out = append(out, s)
+		}
+	}
+	return out
 }
